@@ -268,7 +268,7 @@ class C13(Property):
                     cases.append({'op': 'text', 's': t})
             elif r < 0.84:
                 sfx = rng.choice([[], ['(s)'], ['(aq)', '(g)'], ['(cr)'], ['(s)', '(l)', '(g)', '(aq)', '(cr)']])
-                cases.append({'op': 'fmt', 'which': rng.choice(FORMATS), 's': s, 'suffixes': sfx})
+                cases.append({'op': 'fmt', 'which': rng.choice(FORMATS), 's': s, 'suffixes': sfx, 'ast': f})
             elif r < 0.93:
                 cases.append(self._reaction_case(rng))
             elif r < 0.955:
@@ -364,6 +364,9 @@ class C13(Property):
         c = {'op': 'species', 'ast': f, 's': fg.render(f), 'phases': phases, 'default': rng.choice([0, 0, 0, None, 7])}
         if rng.random() < 0.15:
             c['phase_idx'] = rng.choice([0, 1, 2, 3, 9, -1])      # explicit keyword: wins over suffix and default
+        if rng.random() < 0.04:                                  # a bare str as `phases` is iterated character by character
+            c['phases_str'] = rng.choice(['(s)', '(aq)', 's', ')'])
+            c['phases'] = list(c['phases_str'])
         return c
 
     def _reaction_case(self, rng):
@@ -421,8 +424,12 @@ class C13(Property):
         op = c['op']
         if op == 'ast':
             return {'op': 'ast', 'ast': c['ast']}
+        if op == 'fmt':
+            return {'op': 'fmt', 'which': c['which'], 's': c['s'], 'suffixes': c['suffixes']}
         if op == 'species':
             m = {'op': 'species', 's': c['s'], 'phases': c['phases'], 'default': c['default']}
+            if c.get('phases_str') is not None:
+                m['phases_str'] = c['phases_str']
             if c.get('phase_idx') is not None:
                 m['phase_idx'] = c['phase_idx']
             return m
@@ -462,6 +469,8 @@ class C13(Property):
             from chempy import Species
             ph = c['phases']
             phases = dict((k, v) for k, v in ph) if ph and isinstance(ph[0], list) else tuple(ph)
+            if c.get('phases_str') is not None:
+                phases = c['phases_str']
             kw = {'phase_idx': c['phase_idx']} if c.get('phase_idx') is not None else {}
             o = call(Species.from_formula, c['s'], phases, c['default'], **kw)
             return o[1] if is_exc(o) else js([o.latex_name, o.unicode_name, o.html_name, o.phase_idx])
@@ -500,10 +509,28 @@ class C13(Property):
             return self._oracle_history(c)
         if op == 'phases_history':
             return self._oracle_phases_history(c)
+        if op == 'fmt' and 'ast' in c:
+            return self._oracle_fmt(c)
         if op == 'charge':
             return self._oracle_charge(c['s'])
         if op == 'printer_dispatch':
             return self._oracle_dispatch(c)
+        return None
+
+    def _oracle_fmt(self, c):
+        """formula_to_X(text, suffixes=ANY tuple): whatever the tuple, the written suffix is kept verbatim and undoing the presentation gives back the
+        canonical text; a refusal is only legitimate when the written suffix is not in the tuple (it then stays in the text, e.g. after a charge)"""
+        f, w, sfx = c['ast'], c['which'], c['suffixes']
+        t = fg.render(f)
+        o = call(real_fns()[w], t, suffixes=tuple(sfx))
+        if is_exc(o):
+            if f['suffix'] and f['suffix'] not in sfx and o[1] in REJECT:
+                return None
+            return 'formula_to_%s(%r, suffixes=%r) raised %s' % (w, t, tuple(sfx), o[1])
+        if not o.endswith(f['suffix']):
+            return 'formula_to_%s(%r, suffixes=%r) = %r: suffix %r not kept verbatim' % (w, t, tuple(sfx), o, f['suffix'])
+        if UN[w](o) != fg.render(canon_ast(f)):
+            return 'undoing formula_to_%s(%r, suffixes=%r) = %r gives %r, expected %r' % (w, t, tuple(sfx), o, UN[w](o), fg.render(canon_ast(f)))
         return None
 
     def _oracle_charge(self, t):
@@ -763,6 +790,8 @@ class C13(Property):
         f, s, ph = c['ast'], c['s'], c['phases']
         isdict = bool(ph) and isinstance(ph[0], list)
         phases = dict((k, v) for k, v in ph) if isdict else tuple(ph)
+        if c.get('phases_str') is not None:
+            phases = c['phases_str']
         keys = [k for k, _ in ph] if isdict else list(ph)
         # the phase the suffix selects (first phase in iteration order the text ends with; the AST's suffix, or its final state token)
         want = None
@@ -781,11 +810,21 @@ class C13(Property):
             return None if is_exc(o) and o[1] == 'ValueError' else 'Species.from_formula(%r, %r, None) should raise ValueError, got %r' % (s, phases, o)
         if is_exc(o):
             # a suffix outside phases + (aq) stays in the text: formulas ending in such a token may legitimately be rejected
-            if f['suffix'] and f['suffix'] not in keys + ['(aq)']:
+            if f['suffix'] and f['suffix'] not in keys + ['(aq)'] and o[1] in REJECT:
                 return None
+            if c.get('phases_str') is not None and o[1] in REJECT:
+                return None                # a bare str is iterated by characters: stripping ')' etc. leaves a text the grammar rightly rejects
             return 'Species.from_formula(%r, %r) raised %s' % (s, phases, o[1])
         if o.phase_idx != want:
             return 'Species.from_formula(%r, %r).phase_idx = %r, the suffix selects %r' % (s, phases, o.phase_idx, want)
+        want_canon = fg.render(canon_ast(f))                    # whatever the phases: names undo to the canonical text, composition is the written one
+        for w in FORMATS:
+            if UN[w](getattr(o, w + '_name')) != want_canon:
+                return 'Species.from_formula(%r, %r).%s_name = %r undoes to %r, expected %r' % (
+                    s, phases, w, getattr(o, w + '_name'), UN[w](getattr(o, w + '_name')), want_canon)
+        want_comp = fg.composition(int_ast(f))
+        if set(o.composition) != set(want_comp) or any(not close(o.composition[k], v, 1e-12, 0.0) for k, v in want_comp.items()):
+            return 'Species.from_formula(%r, %r).composition = %r, written %r' % (s, phases, o.composition, {k: str(v) for k, v in want_comp.items()})
         if f['suffix'] in keys + ['(aq)', ''] and set(keys) <= set(fg.SUFFIXES):
             fns = real_fns()
             for w in FORMATS:
